@@ -281,7 +281,9 @@ def lexicase(ctx: Ctx, cls, fn: FunctionInfo) -> None:
     from ..modelinterp import Budget, Sym, UNKNOWN
     from .c17model import SelScript, run_selection
     tags = ["i1", "i2", "i3"]
-    tables = [{"i1": [1, 5], "i2": [3, 2], "i3": [1, 2]}, {"i1": [4, 4], "i2": [2, 7], "i3": [3, 1]}]
+    # the third table has values closer to each other than any tolerance a vectorised "is close to the best" test would use: being best on a case is exact
+    tables = [{"i1": [1, 5], "i2": [3, 2], "i3": [1, 2]}, {"i1": [4, 4], "i2": [2, 7], "i3": [3, 1]},
+              {"i1": [1e-9, 3.0], "i2": [0.0, 5.0], "i3": [1000001.0, 3.0 - 1e-9]}]
     bad: dict[str, tuple] = {}
     und = None
     n = 0
@@ -343,6 +345,27 @@ def lexicase(ctx: Ctx, cls, fn: FunctionInfo) -> None:
                                     shuffles = []
                                 elif e.kind == "yield":
                                     und = und or "yield from: winners not followed"
+    # more winners requested than the population holds: whatever the step does then (it runs out of candidates), it never hands out an individual
+    # more often than the population contains it
+    for comps in tables[:2]:
+        for eps in (False, True):
+            try:
+                runs = run_selection(ctx, cls, fn, tags, {t: 0 for t in tags}, comps, [True, False], SelScript([0, 0, 0, 0, 0], [[0, 1], [1, 0], [0, 1], [1, 0], [0, 1]]),
+                                     {"epsilon": eps}, target_size=5)
+            except Budget:
+                und = "too many interpretations"
+                continue
+            for trace, rv, notes in runs:
+                n += 1
+                ws = [e.args[0] for e in trace if e.kind == "yield" and e.name == ""]
+                if any(not isinstance(w, Sym) for w in ws):
+                    und = und or "a yielded value is not followed"
+                    continue
+                for t in tags:
+                    if sum(1 for w in ws if w.tag == t) > 1:
+                        bad.setdefault("once", (f"asked for 5 winners out of a population of 3, the step returns {[w.tag for w in ws]}: {t} is returned more often than "
+                                                f"the population contains it (the candidates are refilled from the whole pool once they run out)",
+                                                {"fitness": comps, "epsilon": eps, "target_size": 5}))
     for key, rule, desc in (("shuffle", "C17.R2", "the case order is a fresh shuffle of all cases for every winner"),
                             ("survivor", "C17.R3", "every winner survives the lexicase filter (direction and epsilon band per case, threshold from the current candidates)"),
                             ("member", "C17.R4", "every winner is a member of the population"),
